@@ -1,7 +1,10 @@
 //! Engine: context, counters, generated/enumerated part runner, failure handling, evidence.
 
+pub mod alloc;
 pub mod findings;
 pub mod panics;
+pub mod robust;
+pub mod worker;
 pub mod tmp;
 pub mod util;
 
@@ -101,6 +104,15 @@ fn journal<C: Serialize>(id: &str, part: &str, c: &C) {
 thread_local! {
     /// false while proptest is shrinking (closure re-runs must not be counted)
     static COUNTING: Cell<bool> = const { Cell::new(true) };
+}
+
+thread_local! {
+    /// fuller description of the failing case (e.g. with the materialised input bytes) for the replay file
+    static CASE_DETAIL: std::cell::RefCell<Option<Value>> = const { std::cell::RefCell::new(None) };
+}
+
+pub fn set_case_detail(v: Value) {
+    CASE_DETAIL.with(|c| *c.borrow_mut() = Some(v));
 }
 
 fn counting() -> bool {
@@ -250,6 +262,7 @@ impl Ctx {
 
     /// Handle a failed case: decide known finding vs violation, write the replay file, print the line.
     pub fn report(&self, part: &str, case: Value, f: &Failure) {
+        let case = CASE_DETAIL.with(|c| c.borrow_mut().take()).unwrap_or(case);
         let sig = format!("{}:{}", self.id, f.slug);
         if !self.strict {
             if let Some(k) = self.findings.lookup(self.id, &sig) {
@@ -413,6 +426,7 @@ pub fn threads() -> usize {
 /// Run `prop` on a case, converting an unexpected harness panic into an infra error and a Physis panic
 /// (raised inside `panics::guard`) that was not turned into a Failure by the property into a failure.
 pub fn run_case<C>(ctx: &Ctx, prop: fn(&C, &Ctx) -> PResult, c: &C) -> PResult {
+    CASE_DETAIL.with(|c| *c.borrow_mut() = None);
     let r = std::panic::catch_unwind(std::panic::AssertUnwindSafe(|| prop(c, ctx)));
     match r {
         Ok(r) => r,
@@ -552,6 +566,8 @@ pub struct Property {
     pub assumptions: &'static [&'static str],
     /// run before the parts (oracle self-checks, known-finding probes)
     pub pre: Option<fn(&Ctx)>,
+    /// run after the parts (development-time dumps)
+    pub post: Option<fn(&Ctx)>,
 }
 
 pub fn run_property(p: &Property, ctx: &Ctx) -> i32 {
@@ -590,6 +606,9 @@ pub fn run_property(p: &Property, ctx: &Ctx) -> i32 {
         if std::env::var("VERIF_VERBOSE").is_ok() {
             eprintln!("  part {} done in {:.1}s", part.name(), t.elapsed().as_secs_f64());
         }
+    }
+    if let Some(post) = p.post {
+        post(ctx);
     }
     ctx.finish()
 }
